@@ -51,6 +51,15 @@ def main(prop):
         from checks import c11
 
         c11.long_listing_probe(run)
+    if prop == "C04":
+        # the typing of a $not must not depend on what was compiled before in the same process
+        seq_items = [
+            ("operand_not_in_or", {"pattern": [{"mov": [{"$or": [{"$not": ["rcx"]}, "rdx"]}, "rbx"]}]}, None),
+            ("instruction_not", {"pattern": [{"$not": ["call"]}, "call"]}, None),
+            ("repeated_not", {"pattern": ["ret", {"$not": ["call"], "times": 2}]}, None),
+            ("operand_not", {"pattern": [{"push": [{"$not": ["rex"]}]}, "ret"]}, None),
+        ]
+        lemmas.sequence_invariance(run, seq_items, "not_typing")
     if prop == "C07":
         # the reported text must be the engine's whole match (group 0) and the reported address its prefix: the
         # forwarding harness of C12 (engine stubbed) — a rule with capture groups must not change what is reported
